@@ -91,6 +91,16 @@ def tfFactor (s : Stats) (fieldnormId tf : Nat) : F :=
 def termScore (s : Stats) (docFreq fieldnormId tf : Nat) (boost : F) : F :=
   mul (weight s docFreq boost) (tfFactor s fieldnormId tf)
 
+/-- mirrors: Bm25Weight::for_terms for a phrase — `idf_sum = 0.0; idf_sum += idf(df_i, N)` in term
+order; `weight = idf_sum * (1 + K1)`; the phrase count plays the role of the term frequency
+(phrase_scorer.rs::score) -/
+def idfSum (s : Stats) (docFreqs : List Nat) : F :=
+  docFreqs.foldl (fun acc n => add acc (idf n s.numDocs)) zero
+
+def phraseScore (s : Stats) (docFreqs : List Nat) (fieldnormId count : Nat) (boost : F) : F :=
+  let w : F := mul (idfSum s docFreqs) (add one K1)
+  mul (if isOne boost then w else mul w boost) (tfFactor s fieldnormId count)
+
 /-- mirrors: Bm25Weight::max_score — `score(255, 2_013_265_944)` -/
 def maxScore (s : Stats) (docFreq : Nat) (boost : F) : F :=
   termScore s docFreq Gen.MAX_SCORE_FIELDNORM_ID Gen.MAX_SCORE_TF boost
@@ -99,6 +109,7 @@ def maxScore (s : Stats) (docFreq : Nat) (boost : F) : F :=
 leaf carrying the document's `(tf, fieldnorm_id)` and the term's searcher-wide `doc_freq` -/
 inductive QTree (F : Type) where
   | term (docFreq fieldnormId tf : Nat)
+  | phrase (docFreqs : List Nat) (fieldnormId count : Nat)
   | boost (q : QTree F) (b : F)
   | const (q : QTree F) (s : F)
   | sum (qs : List (QTree F))
@@ -108,6 +119,7 @@ mutual
 /-- the score a scorer built with `weight.scorer(reader, boost)` returns on the document -/
 def score (s : Stats) : QTree F → F → F
   | .term n id tf, boost => termScore s n id tf boost
+  | .phrase ns id c, boost => phraseScore s ns id c boost
   -- mirrors: BoostWeight::scorer — `self.weight.scorer(reader, boost * self.boost)`
   | .boost q b, boost => score s q (mul boost b)
   -- mirrors: ConstWeight::scorer — `ConstScorer::new(inner, boost * self.score)`
@@ -131,6 +143,8 @@ end
 def explainValue (s : Stats) : QTree F → F
   -- mirrors: TermWeight::explain → TermScorer::explain → Bm25Weight::explain: `self.score(..)` of the unboosted scorer
   | .term n id tf => termScore s n id tf one
+  -- mirrors: PhraseWeight::explain — `Explanation::new("Phrase Scorer", scorer.score())`
+  | .phrase ns id c => phraseScore s ns id c one
   -- mirrors: BoostWeight::explain — `underlying_explanation.value() * self.boost`
   | .boost q b => mul (explainValue s q) b
   -- mirrors: ConstWeight::explain — `Explanation::new("Const", self.score)`
